@@ -55,6 +55,18 @@ CLAIMED = {
         "technique": "Coq proof (encoder/decoder round trip, scan invariant) + exact differential correspondence",
         "design": "DESIGN.md section 7 C11",
     },
+    "C02": {
+        "text": "Coq refinement theorem: the polling interpreter model (transcription of CommandExecutor::step, the command handlers, LoopStack and BytecodePlayer::seek: clock-reset flag, stale fields after rewind, re-arming once ended, proposal+1) reports for a fresh player and every timestamp exactly the state of an independent event-driven semantics (instructions decoded to abstract commands; all instructions scheduled strictly before t executed plus the first one scheduled at t): colour (exact linear interpolation inside fades), pyro mask, ended flag, next event; seek terminates whenever the program makes progress; next event >= t; state held after the end; unknown opcodes stop. Tied to the code by differential runs of BOTH the polling model and the event-driven specification against the library on structured programs (all opcodes, nesting 0..5, jumps, zero durations, truncated arguments).",
+        "note": "Trusted: Coq kernel; hand-written model (exact integers: the float clock conversions of the code are the identity below 2^24 ms, the property's bound; colour inside a fade compared within exact-1-2^-12 < channel <= exact+2^-12 because the code truncates a binary32 evaluation); C API has no signal source (channel colours black, triggers never fire); extraction; harness. No axioms.",
+        "technique": "Coq refinement proof (abstraction relation, one step = one instruction, induction over wake-ups) + differential correspondence of model and spec against the C++ interpreter",
+        "design": "DESIGN.md section 7 C02",
+    },
+    "C09": {
+        "text": "Coq theorem: after any history of seeks (backwards, repeated, far ahead) through one player, a seek to t reports the declarative state at t, possibly advanced by k further instructions scheduled at that very instant, k <> 0 only when t repeats the previous query (the property's latitude); rewind + reset restores the fresh state up to dead fields. The literal statement including the next-event time is refuted by a machine-checked counterexample (repeated query at the instant the end was reported: next event t+60000 instead of t) and proved with that clause weakened. Tied to the code by exact history-mode differential runs (every ordering of small probe sets with repeated instants, random walks with back-jumps).",
+        "note": "As C02. The next-event time of a repeated query at the end instant is outside the property (colour and pyro answers) and documented in DESIGN.md.",
+        "technique": "Coq proof (history invariant over the refinement relation) + exact history-mode differential correspondence",
+        "design": "DESIGN.md section 7 C09",
+    },
 }
 NOT_YET = "check not built yet in this session (planned: Coq model + theorems + correspondence, see DESIGN.md section 7)"
 
